@@ -224,7 +224,7 @@ def run(ctx):
         gg = None if rng.random() < 0.4 else tuple(rng.randrange(2) for _ in range(6))
         cmds.append(("ROW", (row, gg, rng.randrange(2), rng.choice([-1, -1, 0, 1, 2, n]))))
     # ---- scenes
-    nsc = 25 if quick else 300
+    nsc = 60 if quick else 400
     for _ in range(nsc):
         seed = rng.randrange(1, 1 << 40)
         nb = rng.choice([1, 2, 4, 6, 10]) if quick else rng.choice([1, 2, 4, 6, 10, 16, 24])
@@ -234,6 +234,7 @@ def run(ctx):
 
     cmds.append(("CORPUS", 0))
     cmds.append(("CORPUS", 1))
+    cmds.append(("CORPUS", 2))
 
     def text(c):
         k, p = c
@@ -378,14 +379,16 @@ def run(ctx):
             d1, g1, dm, gm = float.fromhex(t[2]), int(t[3]), float.fromhex(t[4]), int(t[5])
             desc = ["free body rotated 90 deg about x (quat .7071 .7071 0 0) with spheres r=0.1 at (0,0,0) and r=0.3 at (0,0,1) in the body frame; "
                     "ray pnt=(-2,0,0) vec=(1,0,0), cutoff=mjMAXVAL",
-                    "infinite plane z=0 in the world body; ray pnt=(10,0,1) vec=(0,0,-1), cutoff=5"][p]
-            exp_ray = [(1.9, 0), (1.0, 0)][p]
+                    "infinite plane z=0 in the world body; ray pnt=(10,0,1) vec=(0,0,-1), cutoff=5",
+                    "free body (frame = world) with explicit inertial frame ipos=(0.3,0,0) iquat=(.7071,0,0,.7071), spheres r=0.1 at (0,0,0) and "
+                    "(2,0,0); ray pnt=(2,-2,0) vec=(0,1,0), cutoff=mjMAXVAL"][p]
+            exp_ray = [(1.9, 0), (1.0, 0), (1.9, 1)][p]
             if abs(d1 - exp_ray[0]) > 1e-9 or g1 != exp_ray[1]:
                 ctx.violation("impl_violation", {"op": "corpus scene", "scene": desc}, expected=exp_ray, observed=(d1, g1), theorem="C16_select",
                               signature={"site": "mj_ray", "class": "not_nearest"})
             if (dm, gm) != (d1, g1):
                 ctx.violation("impl_violation", {"op": "corpus scene", "scene": desc}, expected={"mj_ray": (d1, g1)}, observed={"mj_multiRay": (dm, gm)},
-                              theorem="C16_multi", signature={"site": "mj_multiRay", "class": ["body_sphere_cull_drops_hit", "plane_dropped_by_cutoff"][p]})
+                              theorem="C16_multi", signature={"site": "mj_multiRay", "class": ["body_sphere_cull_drops_hit", "plane_dropped_by_cutoff", "body_sphere_cull_drops_hit"][p]})
         elif k == "SCENE":
             seed, nb, nray, gg, flg, bex, cutoff = p
             case = {"op": "scene", "seed": seed, "nbody": nb, "geomgroup": gg, "flg_static": flg, "bodyexclude": bex, "cutoff": cutoff}
@@ -493,8 +496,9 @@ def run(ctx):
                                                            "true" if g["ma0"] else "false", g["weld"], zc(g["group"])) if g["mat"] >= 0 else
                              "(%d, (-1), %s, %s, %d, %s)" % (g["body"], "true" if g["ga0"] else "false", "true" if g["ma0"] else "false", g["weld"], zc(g["group"]))
                              for g in G)
-            sel_cases.append("([%s], %s, %s, %s, [%s])" % (alit, zc(bex_eff), "true" if flg else "false", gg_lit(gg), "; ".join(ray_lits)))
-            sel_src.append(ci)
+            if len(sel_cases) < (25 if quick else 300):        # the oracle runs on every scene, the Coq selection model on the first ones (cost)
+                sel_cases.append("([%s], %s, %s, %s, [%s])" % (alit, zc(bex_eff), "true" if flg else "false", gg_lit(gg), "; ".join(ray_lits)))
+                sel_src.append(ci)
             if len(samples) < 3 and len(G) > 5:
                 samples.append(dict(case, ngeom=len(G), nrays=len(rays)))
     tm["oracles"] = round(time.time() - t0, 1); t0 = time.time()
